@@ -709,7 +709,7 @@ fn c19_run_phase(ctx: &Ctx, out: &mut Out, rng: &mut Rng, k: u64, force: Option<
     let mut cfg = SrvCfg::new(0, &seed);
     cfg.num_workers = Some(nworkers);
     cfg.batch_size = Some(if rng.chance(1, 2) { *rng.pick(&[1u32, 64]) } else { rng.range(1, 64) as u32 });
-    if phase == Phase::Flood && rng.chance(1, 2) {
+    if phase == Phase::Flood && rng.chance(3, 4) {
         // small batches that are not powers of two: one signature per handful of requests makes the
         // worker slow enough for any sender to keep its queue non-empty, whatever the machine
         cfg.batch_size = Some(*rng.pick(&[3u32, 5, 6, 7]));
